@@ -190,10 +190,12 @@ def flatten(spec):
             for x in a['assets']:
                 rec(x, a.get('start', ws), a.get('end', we))
         else:
-            if ws is not None and a.get('start') is not None:
-                a['start'] = str(max(pd.Timestamp(a['start']), pd.Timestamp(ws)))
-            if we is not None and a.get('end') is not None:
-                a['end'] = str(min(pd.Timestamp(a['end']), pd.Timestamp(we)))
+            # a wrapped asset is active in the intersection of its own window and the structured asset's (a wrapped asset without a window of its
+            # own in the structured asset's window)
+            if ws is not None:
+                a['start'] = str(max(pd.Timestamp(a['start']), pd.Timestamp(ws))) if a.get('start') is not None else ws
+            if we is not None:
+                a['end'] = str(min(pd.Timestamp(a['end']), pd.Timestamp(we))) if a.get('end') is not None else we
             out.append(a)
     for a in sp['assets']:
         rec(a)
@@ -235,9 +237,10 @@ def run_structured(rng, tier, case):
             if gen.local_ok(far0, tz) and gen.local_ok(far1, tz):
                 s0['start'] = ws; s0['end'] = we
                 for x in s0['assets']:
-                    i_s, i_e, _k2 = gen.gen_window(rng, g, kinds=['inside', 'straddle_start', 'straddle_end', 'none'])
-                    x['start'] = i_s if i_s is not None else far0
-                    x['end'] = i_e if i_e is not None else far1
+                    i_s, i_e, _k2 = gen.gen_window(rng, g, kinds=['inside', 'straddle_start', 'straddle_end', 'none', 'none'])
+                    if x['type'] == 'Storage' or _k2 != 'none':
+                        x['start'] = i_s if i_s is not None else far0
+                        x['end'] = i_e if i_e is not None else far1
                 case.feature('structured_with_window')
     flat = flatten(sp)
     case.feature('structured')
@@ -281,6 +284,30 @@ def run_structured(rng, tier, case):
             case.check('structured.external_dispatch_equals_flat', bool(np.abs(got - want).max() <= 1e-6 * (1 + np.abs(want).max())), nonvacuous=bool(np.abs(want).max() > 1e-6),
                        struct=st['name'], node=ext, worst=float(np.abs(got - want).max()))
     case.nontrivial = flowed
+    # the same objects again after the structured asset's window was removed / moved: still the flat portfolio of the same assets (nothing of the
+    # first window may stay behind on the wrapped assets)
+    tops = [a for a in sp['assets'] if a['type'] == 'StructuredAsset' and (a.get('start') or a.get('end'))]
+    if tops and rng.random() < 0.7:
+        st = tops[0]
+        obj = [o for o in rs.built.portfolio.assets if o.name == st['name']][0]
+        sp2 = copy.deepcopy(sp)
+        st2 = [a for a in sp2['assets'] if a['name'] == st['name']][0]
+        if rng.random() < 0.5:
+            st2['start'] = None; st2['end'] = None; obj.start = None; obj.end = None
+        else:
+            ws2, we2, _k3 = gen.gen_window(rng, sp['grid'], kinds=['inside', 'straddle_start', 'straddle_end'])
+            import pandas as pd
+            st2['start'] = ws2; st2['end'] = we2
+            tzq = sp['grid'].get('tz')
+            obj.start = None if ws2 is None else pd.Timestamp(ws2).to_pydatetime(); obj.end = None if we2 is None else pd.Timestamp(we2).to_pydatetime()      # (naive, as built)
+        rs2 = flow.run_portfolio(sp2, built=rs.built, do_extract=False)
+        rf2 = flow.run_portfolio(flatten(sp2), do_extract=False)
+        if rs2.ok and rf2.ok and rs2.solved and rf2.solved:
+            va, vb = float(rs2.res.value), float(rf2.res.value)
+            case.check('structured.value_equals_flat_after_window_change', abs(va - vb) <= solve.TOL_VAL * (1 + abs(vb)), structured=va, flat=vb,
+                       new_window=[st2.get('start'), st2.get('end')], old_window=[st.get('start'), st.get('end')])
+        elif rs2.ok != rf2.ok:
+            case.check('structured.value_equals_flat_after_window_change', False, structured_error=None if rs2.ok else flow.describe_error(rs2), flat_error=None if rf2.ok else flow.describe_error(rf2))
 
 
 def run_case(rng, tier, case):
